@@ -17,7 +17,10 @@ META = {
                 "try_serialize_record / try_deserialize_record for all eight kinds with real signed values and proofs, and of the cbor4ii / "
                 "rmp-serde codecs for Request/Response/Cmd/Query/NetworkAddress/Error, plus an exhaustive sweep of all 2^24 three-byte header "
                 "windows and all shorter strings, every prefix / bit flips / splices / random bytes / huge declared lengths, is judged by the "
-                "TLA+ clause operators. 'All values' is decided per value class with sampled members; the header window is exhaustive.",
+                "TLA+ clause operators. 'All values' is decided per value class with sampled members (classes include the bin8/bin16/bin32 length "
+                "boundaries, 1 MiB chunks, scratchpad counters 2^32 and 2^64-1, zero-valued and maximal quote metrics, key lists of 255/256/300); the "
+                "header window is exhaustive. Wire stability is judged against pinned golden byte vectors (specs/codec/golden.ndjson) of every record "
+                "kind and message variant in both back-ends: each is decoded and re-encoded, and its fixed value is encoded again, by the build under test.",
         "note": "trusted: TLC; the types' PartialEq used for value equality (backed by byte equality of the re-encoding); the driver's labelling of "
                 "payload classes (prefix cuts are checked numerically by the trace spec); tiny-keccak SHA3-256 as the independent chunk address",
         "design_ref": "5 Area Codec",
